@@ -73,7 +73,33 @@ func c15ItemNo(r *RPC) int {
 	return n
 }
 
-func c15SeqRun(_ *testing.T, c c15Seq) (res vfResult) {
+// c15SeqRun runs one sequence inside a synctest bubble, each queue operation in a goroutine of its own: none of the
+// operations of a sequential history may block (pushes are non-blocking, pops meet a non-empty queue or a cancelled
+// context), and quiescence with the operation still pending shows one that does, without any clock.
+func c15SeqRun(t *testing.T, c c15Seq) (res vfResult) {
+	vfBubble(t, func() { c15SeqRunInBubble(c, &res) })
+	return
+}
+
+// c15Returns runs f in a goroutine and reports whether it has returned once the bubble is quiescent.
+func c15Returns(f func()) bool {
+	done := make(chan struct{})
+	go func() {
+		defer close(done)
+		f()
+	}()
+	synctest.Wait()
+	select {
+	case <-done:
+		return true
+	default:
+		return false
+	}
+}
+
+func c15SeqRunInBubble(c c15Seq, resp *vfResult) {
+	var res vfResult
+	defer func() { *resp = res }()
 	q := newRpcQueue(c.Cap)
 	m := &c15Model{cap: c.Cap}
 	cancelled, cancel := context.WithCancel(context.Background())
@@ -85,7 +111,12 @@ func c15SeqRun(_ *testing.T, c c15Seq) (res vfResult) {
 			urgent := op == 'u'
 			m.nextItem++
 			it := m.nextItem
-			err, pan := c15Push(q, c15Item(it), urgent, false)
+			var err error
+			var pan any
+			if !c15Returns(func() { err, pan = c15Push(q, c15Item(it), urgent, false) }) {
+				res.violate("C15/nonblocking-push-blocked", step, "a non-blocking push (urgent=%v) with %d/%d items queued did not return", urgent, m.len(), m.cap)
+				return
+			}
 			switch {
 			case m.closed:
 				afterClose = true
@@ -128,7 +159,12 @@ func c15SeqRun(_ *testing.T, c c15Seq) (res vfResult) {
 			if m.closed {
 				afterClose = true
 			}
-			rpc, err := q.Pop(ctx)
+			var rpc *RPC
+			var err error
+			if !c15Returns(func() { rpc, err = q.Pop(ctx) }) {
+				res.violate("C15/pop-blocked", step, "a pop that must return at once (%d items queued, closed=%v, cancelled context=%v) did not return", m.len(), m.closed, op == 'c')
+				return
+			}
 			switch {
 			case m.closed:
 				if !errors.Is(err, ErrQueueClosed) || rpc != nil {
